@@ -36,9 +36,16 @@ def gen_cases(ctx, forest, ntrees, per_tree):
     rng = ctx.rng
     cases = []
     names = []
+    other = forest.other_device()
+    if other is None:
+        ctx.notes.append("no second file system at /dev/shm: -xdev cases have nothing to stop at")
     for k in range(ntrees):
         nm = b"t%d" % k
         spec = fstree.gen_tree(rng)
+        if other is not None and rng.random() < 0.5:
+            # a link to a directory on another file system, somewhere in the tree: followed under -L, where -xdev stops at it
+            dirs = [sp for pth, sp in fstree.all_paths(spec) if sp[0] == "d"]
+            rng.choice(dirs)[1][rng.choice([b"xd", b"A0"])] = ("l", other)
         forest.add(nm, spec)
         names.append(nm)
     # starting points that are themselves links / missing
@@ -68,7 +75,8 @@ def gen_cases(ctx, forest, ntrees, per_tree):
             post = rng.random() < 0.4
             # (-H, -depth and a starting point that is a link to a directory used to be excluded here: the former known finding
             # H-rootlink-depth, repaired by 0b78d01)
-            cases.append(dict(treekey=(ctx.seed, k), roots=roots, mode=mode, mind=mind, maxd=maxd, post=post, post_late=rng.choice([None, None, "-depth"]), prune=None))
+            cases.append(dict(treekey=(ctx.seed, k), roots=roots, mode=mode, mind=mind, maxd=maxd, post=post, post_late=rng.choice([None, None, "-depth"]), prune=None,
+                              xdev=rng.choice([None, None, "-xdev", "-mount"])))
     return cases
 
 
@@ -197,8 +205,15 @@ def replay(ctx, rep, pid="C02", bucket_fn=None):
         c["roots"] = [r.encode() for r in rep["roots"]]
         c["prune"] = [p.encode() for p in rep["prune"]] or None
         c["treekey"] = "replay"
+        def remap(sp):
+            # the directory on the other file system has a new name in every run
+            if sp[0] == "l" and sp[1].startswith(b"/dev/shm/fuv-xdev-"):
+                return ("l", forest.other_device() or sp[1])
+            if sp[0] == "d":
+                return ("d", {k: remap(v) for k, v in sp[1].items()})
+            return sp
         for r, spec in rep["trees"].items():
-            s = wc.spec_from_json(spec)
+            s = remap(wc.spec_from_json(spec))
             if s[0] == "l":
                 os.symlink(s[1], os.path.join(forest.dir, r.encode()))
                 forest.trees[r.encode()] = s
